@@ -32,7 +32,7 @@ Definition validate (c : rconfig) : option (N * N * N) :=
   if N.eqb (cfg_heartbeat_tick c) 0 then None else
   if cfg_election_tick c <=? cfg_heartbeat_tick c then None else
   let mu := if N.eqb (cfg_max_uncommitted c) 0 then noLimit else cfg_max_uncommitted c in
-  let mc := if N.eqb (cfg_max_committed_size c) 0 then cfg_max_size_per_msg c else cfg_max_committed_size c in
+  let mc := if N.eqb (cfg_max_committed_size c) 0 then N.max (cfg_max_size_per_msg c) 1 else cfg_max_committed_size c in
   if N.eqb (cfg_max_inflight_msgs c) 0 then None else
   if negb (N.eqb (cfg_max_inflight_bytes c) 0) && (cfg_max_inflight_bytes c <? cfg_max_size_per_msg c) then None else
   let mb := if N.eqb (cfg_max_inflight_bytes c) 0 then noLimit else cfg_max_inflight_bytes c in
